@@ -74,27 +74,49 @@ impl CodecDesc {
             ],
         )
     }
-    /// Build the real PeerCodec through the repo's own negotiation (both sides advertise the same set).
+    /// Build the real PeerCodec through the repo's own negotiation.  The third component of a family is the RECEIVE
+    /// direction of ADD-PATH (what the decoders must use).  The SEND direction is made to differ from it in about half
+    /// of the codecs (parity of afi + safi + ext + two): local / remote ADD-PATH modes are chosen so that
+    /// `addpath_tx == !addpath_rx` there, so a decoder that looks at the wrong direction mis-frames the NLRI.
     pub fn build(&self) -> PeerCodec {
-        let mut caps: Vec<Capability> = Vec::new();
-        let mut ap = Vec::new();
-        for (afi, safi, addpath) in &self.fams {
+        let mut local: Vec<Capability> = Vec::new();
+        let mut remote: Vec<Capability> = Vec::new();
+        let mut apl = Vec::new();
+        let mut apr = Vec::new();
+        for (afi, safi, rx) in &self.fams {
             let f = Family::new(*afi, *safi);
-            caps.push(Capability::MultiProtocol(f));
-            if *addpath {
-                ap.push((f, 3u8));
+            local.push(Capability::MultiProtocol(f));
+            remote.push(Capability::MultiProtocol(f));
+            let alt = (*afi as u32 + *safi as u32 + self.ext as u32 + self.two as u32) % 2 == 0;
+            // (local mode, remote mode): 1 = receive, 2 = send, 3 = both
+            let (l, r) = match (*rx, alt) {
+                (true, true) => (1u8, 2u8),  // rx only
+                (true, false) => (3, 3),     // both
+                (false, true) => (2, 1),     // tx only
+                (false, false) => (0, 0),    // none
+            };
+            if l != 0 {
+                apl.push((f, l));
+            }
+            if r != 0 {
+                apr.push((f, r));
             }
         }
-        if !ap.is_empty() {
-            caps.push(Capability::AddPath(ap));
+        if !apl.is_empty() {
+            local.push(Capability::AddPath(apl));
         }
-        if self.ext {
-            caps.push(Capability::ExtendedMessage);
+        if !apr.is_empty() {
+            remote.push(Capability::AddPath(apr));
         }
-        if !self.two {
-            caps.push(Capability::FourOctetAsNumber(65001));
+        for caps in [&mut local, &mut remote] {
+            if self.ext {
+                caps.push(Capability::ExtendedMessage);
+            }
+            if !self.two {
+                caps.push(Capability::FourOctetAsNumber(65001));
+            }
         }
-        let c = PeerCodec::negotiate(&caps, &caps);
+        let c = PeerCodec::negotiate(&local, &remote);
         assert_eq!(c.extended_length, self.ext);
         assert_eq!(c.two_byte_as, self.two);
         c
